@@ -181,16 +181,9 @@ def run(case, ctx):
         info["probes"] = dict(info.get("probes", {}), **{"breakdown instants compared": len(snaps)})
         return None
 
-    # snapshot hook: wrap materialise through a Machine subclass
-    orig_record = W.Machine.record
+    def on_record(mach):
+        snaps.append((mach.now, expected_values(mach.w, mach, model)))
 
-    def rec(self):
-        orig_record(self)
-        snaps.append((self.now, expected_values(self.w, self, model)))
-    W.Machine.record = rec
-    try:
-        r = mgen.run_machine_case(case, ctx, keys_filter=lambda k, t: False, post=post)
-    finally:
-        W.Machine.record = orig_record
+    r = mgen.run_machine_case(case, ctx, keys_filter=lambda k, t: False, post=post, on_record=on_record)
     r["nontrivial"] = case.get("nontrivial", True)
     return r
